@@ -385,6 +385,62 @@ def run_batch(ctx, cases, st, counter):
     return True
 
 
+
+# ------------------------------------------------------------------ value-dependent ranks: the generated dispatcher between entry point and method
+def check_dependent_forwarding(ctx, prog, st):
+    """a rank holding value-dependent methods is served by a second generated function (recode.generate_dependent_dispatch:
+    lookup table / if-chain / counting) that stands between the entry point and the method: the same obligations hold
+    through it -- the method that runs receives the caller's objects under the same names, and a call an applicable
+    method accepts is not rejected by a binding error of the generated code"""
+    from . import dep_common as D
+    from .. import progs
+    from ..world import world_from, dec_val
+    w = world_from(prog["spec"])
+    b = progs.Built(w, prog["defs"], utab=prog.get("utab"))
+    byid = {d["id"]: d for d in prog["defs"]}
+    for call in prog["calls"]:
+        vs = [dec_val(e, w) for e in call["vals"]]
+        kws = {int(k): dec_val(e, w) for k, e in call.get("kwvals", {}).items()}
+        out, entered = b.call(vs, {f"k{k}": v for k, v in kws.items()})
+        recs = [dict(e[1]) for e in b.log]
+        st["dep_calls"] += 1
+        case = {"dep": True, "spec": prog["spec"], "defs": prog["defs"], "utab": prog.get("utab", {}), "calls": [call]}
+        if out[0] == "exc" and out[1].startswith("TypeError:"):
+            exp = D.py_spec_dep(w, b, prog["defs"], vs, kws)
+            if exp is not None and exp[0] == "run":
+                ctx.violation(f"method {exp[1]} accepts this call and is the one the documented rule selects, but the call is rejected: {out[1]}", case)
+            else:
+                ctx.violation(f"a binding error of the generated code reaches the caller: {out[1]}", case)
+            continue
+        for mid, rec in zip(entered, recs):
+            d = byid[mid]
+            for i in range(len(d["pos"])):
+                if i >= len(vs) or rec.get(f"a{i}") is not vs[i]:
+                    ctx.violation(f"method {mid} received {rec.get(f'a{i}')!r} at position {i}, the caller supplied {vs[i] if i < len(vs) else None!r}", case)
+            for (k, t, req) in d.get("kw", []):
+                got = rec.get(f"k{k}")
+                if int(k) in kws:
+                    if got is not kws[int(k)]:
+                        ctx.violation(f"method {mid} received {got!r} under keyword k{k}, the caller supplied {kws[int(k)]!r}", case)
+                elif got is not progs.DEFAULT:
+                    ctx.violation(f"method {mid} received {got!r} for the omitted keyword k{k} instead of its own default", case)
+            st["dep_entered"] += 1
+
+
+def part_dependent(ctx):
+    from . import dep_common as D
+    st = collections.Counter()
+    todo = D.directed_kw_programs(ctx.rng)
+    st["dep_directed_programs"] = len(todo)
+    todo += [D.gen_dep_program(ctx.rng, steer=ctx.rng.choice(["kwonly", "kwonly", None])) for _ in range(30 if ctx.quick() else 1500)]
+    for prog in todo:
+        check_dependent_forwarding(ctx, prog, st)
+        st["dep_programs"] += 1
+        if len(ctx.violations) > 20:
+            break
+    return dict(st)
+
+
 def run(ctx):
     st = Stats()
     counter = itertools.count()
@@ -433,6 +489,7 @@ def run(ctx):
     exhaustive["two_method_sets"] = max(0, i - len(singles))
     exhaustive["complete"] = i >= len(todo)
     exhaustive["of"] = [len(singles), len(pairs)]
+    dep = part_dependent(ctx)
     cross = 0
     if not quick:
         sub = [{"methods": w["methods"], "calls": w["calls"]} for w in corpus]
@@ -451,7 +508,7 @@ def run(ctx):
         "known_finding_hits": dict(st.kf_hits), "binding_rule_checks_vs_inspect": st.accepts_checked,
         "outcome_histogram": dict(st.outcomes), "positional_count_histogram": {str(k): v for k, v in sorted(st.by_k.items())},
         "keyword_count_histogram": {str(k): v for k, v in sorted(st.by_nkw.items())}, "set_features": dict(st.features),
-        "vm_compute_crosscheck_cases": cross, "traces_validated_against_impl": st.traces,
+        "value_dependent_ranks": dep, "vm_compute_crosscheck_cases": cross, "traces_validated_against_impl": st.traces,
     }
 
 
@@ -477,6 +534,11 @@ def replay(ctx, payload):
     if "cases" in case:
         return model.run_cases(case["cases"]) != model.run_in_coq(case["cases"])
     col = _Collect(ctx)
+    if case.get("dep"):
+        check_dependent_forwarding(col, case, collections.Counter())
+        for v in col.violations:
+            print(v["kind"], v["what"])
+        return bool(col.violations)
     case = {"methods": case["methods"], "calls": case.get("calls", [])}
     run_batch(col, [case], Stats(), itertools.count())
     for v in col.violations:
